@@ -209,7 +209,10 @@ def write_corpus(outdir, seed, n):
     out = []
     items = [special_zone(i, f) for i, f in enumerate(SPECIAL_FOOTERS)]
     items += [old_zone(0, b"EST5EDT,M3.2.0,M11.1.0", -14830000000), old_zone(1, b"EST5EDT,M4.5.0,M10.5.0", -3000000000),
-              old_zone(2, b"EST5EDT,M3.2.0,M11.1.0", -12700000000), old_zone(3, b"EST5EDT,J60,J300", -86400 * 200)]
+              old_zone(2, b"EST5EDT,M3.2.0,M11.1.0", -12700000000), old_zone(3, b"EST5EDT,J60,J300", -86400 * 200),
+              # data ending between 1568 and 1794: the generated table reaches past 1970 but ends before 2196, so the
+              # last 400-year cycle before max() is reached through one cycle shift more than fits int64 seconds
+              old_zone(4, b"EST5EDT,M3.2.0,M11.1.0", -10535032704), old_zone(5, b"EST5EDT,M4.5.0,M10.5.0", -6000000000)]
     items += [rand_zone(r, i) for i in range(n)]
     for name, data in items:
         p = os.path.join(outdir, name.replace("/", "_") + ".tzif")
